@@ -349,6 +349,40 @@ func c08Incremental(r *core.Run, p *core.Program) {
 			bad+" on every data event: the cost of an array delivered in k pieces grows with k times its length (quadratic decoding time for documents made of many small chunks)")
 	}
 	r.Floor("C08.incremental", "per-data-event handlers", n, 6)
+	// per-chunk and per-data-event handlers of the builder grow the accumulating buffer only through append (amortised
+	// doubling): a handler (or a helper of the same type it calls) that copies the whole accumulated buffer into a
+	// newly made one re-copies the array once per chunk - quadratic for arrays made of many small chunks
+	for _, name := range []string{"Context.BeginArrayChunk", "Context.AddArrayData"} {
+		f := findFn(p, "builder", name)
+		if f == nil {
+			r.Undecided("C08.incremental", "builder."+name)
+			continue
+		}
+		info := f.Pkg.TypesInfo
+		bodies := []ast.Node{f.Decl.Body}
+		inspectCalls(info, f.Decl.Body, func(call *ast.CallExpr, c *types.Func) {
+			if c != nil && c.Pkg() == f.Pkg.Types && recvNamed(c) != nil && recvNamed(c) == recvNamed(f.Obj) && !c.Exported() {
+				if hd := p.FuncDecl(c); hd != nil && hd.Body != nil {
+					bodies = append(bodies, hd.Body)
+				}
+			}
+		})
+		bad := ""
+		var badPos token.Pos
+		for _, body := range bodies {
+			inspectCalls(info, body, func(call *ast.CallExpr, c *types.Func) {
+				id, ok := call.Fun.(*ast.Ident)
+				if !ok || id.Name != "copy" || len(call.Args) != 2 {
+					return
+				}
+				if fv := fieldOf(info, call.Args[1]); fv != nil && isArrayLongAccumulator(p, fv) {
+					bad, badPos = fv.Name(), call.Pos()
+				}
+			})
+		}
+		r.Check("C08.incremental", "builder."+name+"|the accumulated buffer is not re-copied per chunk", posOr(badPos, f.Decl.Pos()), bad == "",
+			"the accumulated buffer "+bad+" is copied into a newly made buffer on every chunk / data event: an array made of k chunks is copied k times (quadratic time and allocation for documents made of many small chunks)")
+	}
 }
 
 // isArrayLongAccumulator: the field grows by append on some path and is emptied ([:0] / nil / make) only by functions that begin an array or reset.
